@@ -15,6 +15,36 @@ NOT_DECIDED = ["uuid freshness as a value (only that generateUuid() is evaluated
 ASSUMPTIONS = ["Util::generateUuid returns distinct values"]
 
 
+def resume_restores_instance_context(ctx, tag):
+    """The suspended chain is the instance's own state - the paused plugin AND the action context it was fired with, both held in the
+    Ruleset object's active_action_chain_state_: a resuming run_action_chain is reached only with OomdContext::setActionContext having been
+    handed that field's context (and no other context set since).  A context kept anywhere else (a slot in the shared OomdContext, keyed by
+    ruleset name) is shared by all per-cgroup instances of a ruleset, which carry the template's name."""
+    P = ctx.prog
+    impl = ctx.use(ctx.fn1("Oomd::Engine::Ruleset::runOnceImpl"))
+    rac = impl.calls("Ruleset::run_action_chain")
+    resume = [i for i in rac if "begin()" not in impl.text(impl.nodes[i]["args"][0])]
+    ctx.counters[tag + "_resume_calls"] = len(resume)
+    ctx.floor(tag + "_resume_calls", 1, "resuming run_action_chain call")
+    sac = impl.calls("OomdContext::setActionContext")
+    restore = [i for i in sac if "this->active_action_chain_state_" in impl.text(impl.nodes[i]["args"][0])]
+    ev = {}
+    for i in restore:
+        ev.setdefault(i, []).append(("set", "restored"))
+    for i in sac:
+        if i not in restore:
+            ev.setdefault(i, []).append(("clear", "restored"))
+    # any other non-const call on the shared context between the restore and the resume could replace the action context again
+    octx = [p_["name"] for p_ in impl.params if "OomdContext" in p_["type"]]
+    fr = Flow(P, impl, events=ev, cg=ctx.cg)
+    for i in resume:
+        ctx.check(fr.must(i, "restored"), "%s:resume:context-is-the-instance's-own" % tag, "order", impl.loc(i),
+                  "the context in place when the chain resumes is the one saved in this Ruleset object",
+                  "run_action_chain(resume) is reachable without OomdContext::setActionContext(this->active_action_chain_state_->...) having run: the resumed "
+                  "plugin sees a context that is not this instance's saved one (kept elsewhere - e.g. a slot in the shared OomdContext keyed by the ruleset name, "
+                  "which all per-cgroup instances of a ruleset share - or built on the resume tick)", witness_path(impl, fr, i))
+
+
 def run(ctx):
     uuid_generator_keeps_state(ctx)
     pg_scan_sampling_tick(ctx, "C06")
